@@ -34,6 +34,7 @@ type Oblig struct {
 	Inputs  []ModelVar
 	Extra   []string // additional assertions specific to this obligation (e.g. instantiations)
 	clauseIdx int
+	noReplay  bool
 	vc      *FnVC
 }
 
@@ -109,6 +110,8 @@ type FnVC struct {
 	pendingDistinct []string
 	bigConstRefs  [][2]string
 	benign        map[int]bool
+	mutNoted      bool
+	usedLemmas    []string
 }
 
 type pureDef struct {
@@ -499,6 +502,17 @@ func (vc *FnVC) compAxiom(version, comp string) {
 		binders = "((r Int) (i Int))"
 	}
 	fs := vc.rangeFacts(sel, ct.t, 2)
+	// pointers (and slice backing arrays) stored in the entry heap were allocated before entry
+	if strings.HasSuffix(version, "@0") {
+		switch ct.t.Underlying().(type) {
+		case *types.Pointer:
+			vc.decl("allocated0", "(declare-fun allocated0 (Int) Bool)")
+			fs = append(fs, fmt.Sprintf("(or (= %s 0) (allocated0 %s))", sel, sel))
+		case *types.Slice:
+			vc.decl("allocated0", "(declare-fun allocated0 (Int) Bool)")
+			fs = append(fs, fmt.Sprintf("(or (= (s.arr %s) 0) (allocated0 (s.arr %s)))", sel, sel))
+		}
+	}
 	if len(fs) == 0 {
 		return
 	}
@@ -574,7 +588,8 @@ func (vc *FnVC) fldRef(owner types.Type, idx int, ref string) string {
 		vc.decl(fn, fmt.Sprintf("(declare-fun %s (Int) Int)", fn))
 		vc.decl(fn+"$inv", fmt.Sprintf("(declare-fun %s$inv (Int) Int)", fn))
 		vc.decl("reftag", "(declare-fun reftag (Int) Int)")
-		vc.declAxiom(fn+"$ax",fmt.Sprintf("(assert (forall ((r Int)) (! (and (= (%s$inv (%s r)) r) (= (reftag (%s r)) %d) (> (%s r) 0)) :pattern ((%s r)))))", fn, fn, fn, vc.refTagN, fn, fn))
+		vc.decl("allocated0", "(declare-fun allocated0 (Int) Bool)")
+		vc.declAxiom(fn+"$ax", fmt.Sprintf("(assert (forall ((r Int)) (! (and (= (%s$inv (%s r)) r) (= (reftag (%s r)) %d) (> (%s r) 0) (= (allocated0 (%s r)) (allocated0 r))) :pattern ((%s r)))))", fn, fn, fn, vc.refTagN, fn, fn, fn))
 	}
 	return fmt.Sprintf("(%s %s)", fn, ref)
 }
@@ -587,7 +602,8 @@ func (vc *FnVC) elemRef(elem types.Type, arr, idx string) string {
 		vc.decl(fn, fmt.Sprintf("(declare-fun %s (Int Int) Int)", fn))
 		vc.decl(fn+"$inv", fmt.Sprintf("(declare-fun %s$arr (Int) Int)\n(declare-fun %s$idx (Int) Int)", fn, fn))
 		vc.decl("reftag", "(declare-fun reftag (Int) Int)")
-		vc.declAxiom(fn+"$ax",fmt.Sprintf("(assert (forall ((a Int) (i Int)) (! (and (= (%s$arr (%s a i)) a) (= (%s$idx (%s a i)) i) (= (reftag (%s a i)) %d) (> (%s a i) 0)) :pattern ((%s a i)))))", fn, fn, fn, fn, fn, vc.refTagN, fn, fn))
+		vc.decl("allocated0", "(declare-fun allocated0 (Int) Bool)")
+		vc.declAxiom(fn+"$ax", fmt.Sprintf("(assert (forall ((a Int) (i Int)) (! (and (= (%s$arr (%s a i)) a) (= (%s$idx (%s a i)) i) (= (reftag (%s a i)) %d) (> (%s a i) 0) (= (allocated0 (%s a i)) (allocated0 a))) :pattern ((%s a i)))))", fn, fn, fn, fn, fn, vc.refTagN, fn, fn, fn))
 	}
 	return fmt.Sprintf("(%s %s %s)", fn, arr, idx)
 }
